@@ -17,6 +17,7 @@ Events:
   ["tract", framer, frame, line]                    transit sub-context act (marker reset)
   ["f", framer, frame, meth]                        Frame.enter/exit/renter/rexit/recur/precur called
   ["state", framer, status, active, [actives]]      after every send to a framer's runner
+  ["enterall", framer] / ["exitall", framer, abort] Framer.enterAll / exitAll called
 """
 from vp.core import env
 from vp.flo import ast as A
@@ -171,9 +172,26 @@ def instrument(house, log, pre=None, post=None, send_hook=None):
                     lst[i] = Probe(act, log, ev, boolres, pre, post)
             for meth in ("enter", "exit", "renter", "rexit", "recur", "precur"):
                 _wrap_frame_method(frame, fr.name, meth, log)
+        _wrap_framer_methods(fr, log)
     for t in house.taskers:
         t.runner = RunnerProxy(t, log, send_hook)
     return framers
+
+
+def _wrap_framer_methods(fr, log):
+    """Log Framer.enterAll / exitAll boundaries: ["enterall", framer], ["exitall", framer, abort]."""
+    orig_enter = fr.enterAll
+    orig_exit = fr.exitAll
+
+    def enterAll(*pa, **kw):
+        log.cur.append(["enterall", fr.name])
+        return orig_enter(*pa, **kw)
+
+    def exitAll(abort=False, *pa, **kw):
+        log.cur.append(["exitall", fr.name, bool(abort)])
+        return orig_exit(abort, *pa, **kw)
+    fr.enterAll = enterAll
+    fr.exitAll = exitAll
 
 
 def _wrap_frame_method(frame, framer_name, meth, log):
